@@ -147,3 +147,58 @@ def gen_h1_from_spec(tier: str, rng, cfg_name: str = "MC_H1Conn_sim.cfg") -> Ite
                                       fam="tlc/H1Conn/sim")
         if sc is not None:
             yield sc
+
+
+# ------------------------------------------------------------------------------------------
+# H2Conn -> HTTP/2 scripts (one model unit = 16 384 bytes)
+
+UNIT = 16384
+
+
+def h2_script_from_behaviour(beh: Dict[str, Any], init_win: int, chunk_units: int, fam: str) -> Optional[Dict[str, Any]]:
+    streams = [1, 3]
+    steps: List[Dict[str, Any]] = []
+    for i, sid in enumerate(streams):
+        steps.append(build.h2_headers(i + 1, sid, "GET", toks=[["/t%d" % sid, "/t%d" % sid]]))
+    rid_of = {str(sid): str(i + 1) for i, sid in enumerate(streams)}
+    for rid in rid_of.values():
+        steps.append({"s": "op", "app": rid, "op": ["recv"]})
+        steps.append({"s": "op", "app": rid, "op": ["send", {"type": "http.response.start", "status": 200, "headers": []}]})
+    offs: Dict[str, int] = {}
+    stim = 0
+    for name, args in beh["actions"]:
+        if name == "AppPush":
+            rid = rid_of[args[0]]
+            off = offs.get(rid, 0)
+            n = chunk_units * UNIT
+            steps.append({"s": "op", "app": rid, "op": ["send", {"type": "http.response.body", "pat": [110 + int(rid), off, n], "more": True}]})
+            offs[rid] = off + n
+        elif name == "AppEnd":
+            rid = rid_of[args[0]]
+            steps.append({"s": "op", "app": rid, "op": ["send", {"type": "http.response.body", "more": False}]})
+        elif name == "WindowUpdateStream":
+            steps.append({"s": "h2", "op": "wupd", "stream": int(args[0]), "n": int(args[1]) * UNIT})
+        elif name == "WindowUpdateConn":
+            steps.append({"s": "h2", "op": "wupd", "stream": 0, "n": int(args[0]) * UNIT})
+        elif name == "Reset":
+            steps.append({"s": "h2", "op": "rst", "stream": int(args[0])})
+        elif name == "ConnClose":
+            steps.append({"s": "eof"})
+        else:
+            continue
+        stim += 1
+    if stim == 0:
+        return None
+    steps.append({"s": "dt", "d": 0.05})
+    return {"carrier": "h2", "cfg": {}, "apps": {"*": [["remote"]]}, "steps": steps, "fam": fam, "autoack": False,
+            "maxchunk": chunk_units * UNIT, "h2_settings": {"4": init_win * UNIT}, "bodies": {}}
+
+
+def gen_h2_from_spec(tier: str, rng, cfg_name: str = "MC_H2Conn_sim.cfg") -> Iterator[Dict[str, Any]]:
+    num = 120 if tier == "quick" else 2500
+    seed = rng.randrange(1, 1 << 30)
+    behaviours = simulate("MC_H2Conn", cfg_name, num=num, depth=70, seed=seed)
+    for beh in behaviours:
+        sc = h2_script_from_behaviour(beh, init_win=1, chunk_units=2, fam="tlc/H2Conn/sim")
+        if sc is not None:
+            yield sc
